@@ -24,6 +24,7 @@ func checkC10(c *Ctx, r *Report) {
 	r.rule("C10.R5", "the subscriber context a reference is registered in stays in the pool while requests are served (a reference registered in a context that was dropped designates nothing)", 1)
 	r.rule("C10.R6", "the record registered under a newly allocated reference is a record made in that step, not one that another reference already designates", 1)
 	r.rule("C10.R7", "the context a reference is registered in is the one in the pool: after LoadOrStore the request goes on with the stored context (shared with C09.R5) - a reference registered in a private copy designates nothing", 1)
+	r.rule("C10.R8", "the reference keeps designating the record that receives the session's usage: where a session is continued in a new record, the entry under its reference is that new record (shared with C02.R9)", 2)
 	r.rule("C10.R3", "ue.Cdr is written only in create (key = the reference) and in update/release under the request's own reference", 1)
 
 	create := c.fn("internal/sbi/processor", "Processor.ChargingDataCreate")
@@ -150,6 +151,7 @@ func checkC10(c *Ctx, r *Report) {
 		r.check(fresh, "C10.R6", key+"|record registered under the new reference", posOf(c, mu), "every record that can be registered under the new reference is built in this step ("+why+")", "the record registered under the newly allocated reference can be one that exists already ("+why+"): two references then designate one record - updates and the release addressed to either act on the other session's record, and one session never gets a record of its own")
 	}
 	r.shareFrom(c, checkC09, map[string]string{"C09.R5": "C10.R7"})
+	r.shareFrom(c, checkC02, map[string]string{"C02.R9": "C10.R8"})
 	checkPoolLifetime(c, r, "C10.R5", "a create that fetched the context before the removal registers its record in the orphaned object and answers 201 with a reference that the next update or release (which look the subscriber up again and get a fresh context) cannot find - the reference designates no session")
 }
 
